@@ -123,7 +123,7 @@ def case_history(ctx, case):
     decl = []         # [(name, value)] in declaration order
     trace = []
     flags = set()
-    names_pool = ['a', 'b', 'c', 'size', 'n_agents', 'x y', '']
+    names_pool = ['a', 'b', 'c', 'size', 'n_agents', 'x y', '', 'x,y', 'a, b', '\u00b5', '\u03bc', 'x\u00b2', 'x2', 'c*']       # incl. names with commas, names that NFKC would merge
 
     def new_name():
         free = [n for n in names_pool if n not in [d[0] for d in decl]]
